@@ -275,7 +275,7 @@ func shortKey(k string) string {
 // havocRegion replaces the cells of a region by arbitrary values (in every heap sort).
 func (g *Gen) havocRegion(r region) {
 	for _, s := range g.sorts {
-		if r.sort != "*" && r.sort != s {
+		if !regionHasSort(r, s) {
 			continue
 		}
 		if r.n >= 0 && r.n <= 64 {
